@@ -304,9 +304,13 @@ def r5(ctx, rule="C03.R5"):
     n = 0
     for cname, (want_idx, want_lvl) in pairs.items():
         C = P.cls(f"{CONTRASTS}.{cname}")
-        fb, gd = C.methods.get("_find_base_index"), C.methods.get("get_drop_field")
+        # the methods in effect for this class (its own, or the nearest one inherited)
+        fb = gd = None
+        for K in P.mro(C.qualname):
+            fb = fb or K.methods.get("_find_base_index")
+            gd = gd or K.methods.get("get_drop_field")
         if fb is None or gd is None:
-            raise AnalysisError(f"{rule}: {cname} no longer overrides _find_base_index/get_drop_field")
+            raise AnalysisError(f"{rule}: {cname} has no _find_base_index/get_drop_field in its hierarchy")
         n += 1
         ctx.look()
         # path-wise: what each method returns when no base was given / when one was / when the coding is reduced
@@ -412,6 +416,12 @@ def r6(ctx):
         ok = isinstance(v, ast.IfExp) and norm(v.body) == "factor.expr" and isinstance(v.orelse, ast.Tuple) and [norm(e) for e in v.orelse.elts] == ["factor.expr", "reduced_rank"]
         drops = [a for a in ast.walk(v.test) if isinstance(a, ast.Attribute) and a.attr == "drop_field"] if isinstance(v, ast.IfExp) else []
         ok_src = bool(drops) and all(norm(a.value) == "factor.metadata" for a in drops)
+        if ok and ok_src:
+            # … and under nothing else: the bare-expression key is used exactly when the encoding is a dict AND the factor declares a drop field
+            from ..util import atom_mapper, truth_table
+            tt = truth_table(v.test, atom_mapper({"isinstance(encoded, dict)": 0, "factor.metadata.drop_field": 1, "factor.metadata.drop_field is not None": 1,
+                                                  "bool(factor.metadata.drop_field)": 1}), 2)
+            ok_src = tt == (False, False, False, True)
         ctx.check(ok and ok_src, "C03.R6", "a full-rank encoding is shared with reduced-rank requests only when the factor's own metadata declares a drop field",
                   f.module.line(st), ctx.construct(f, text="cache key"),
                   f"cache_key = `{norm(v)[:140]}`: keying on the *encoded* value's metadata (or dropping reduced_rank) lets a full-rank contrast coding be reused for a "
